@@ -33,7 +33,9 @@ def run(res):
         chan_common.run(res, "C03.v", ["C03_sign_needs_revocations", "C03_at_most_two_unrevoked",
                                        "C03_revocation_matches_signed_point", "C03_resign_same",
                                        "C03_store_accepts_only_consistent", "C03_store_keeps_the_tree",
-                                       "C03_commit_update_is_source", "C03_revoke_update_is_source", "C03_nonvacuous"],
+                                       "C03_commit_update_is_source", "C03_revoke_update_is_source",
+                                       "C03_previous_point_lookup_is_source", "C03_previous_info_lookup_is_source",
+                                       "C03_nonvacuous"],
                         "C03", pre=regen)
     except gen_rustfn.GenError as e:
         res.violation("the translator cannot read EnforcementState::set_next_counterparty_commit_num / _revoke_num (a "
